@@ -94,7 +94,14 @@ pub fn run(args: &Args) -> Option<i32> {
             m.count(&format!("op_{}", rec.op.name()));
             match &rec.result {
                 Some(Ok(_)) => m.count(&format!("ok_{}", rec.op.name())),
-                Some(Err(_)) => m.count(&format!("err_{}", rec.op.name())),
+                Some(Err((e, _))) => {
+                    m.count(&format!("err_{}", rec.op.name()));
+                    if std::env::var("VERIF_ERRSTAT").is_ok() {
+                        let s = format!("{e:?}");
+                        let s: String = s.chars().take(60).collect();
+                        m.count(&format!("errstat_{}_{}", rec.op.name(), s));
+                    }
+                }
                 None => {}
             }
             if !rec.ok() {
